@@ -55,6 +55,13 @@ pub mod verif_hooks {
         static PROBES: Cell<u64> = const { Cell::new(0) };
         static REPAIR_SWAP: Cell<bool> = const { Cell::new(false) };
         static ON_EXPIRY: Cell<Option<fn()>> = const { Cell::new(None) };
+        static ON_PROBE: Cell<Option<fn()>> = const { Cell::new(None) };
+    }
+
+    /// Registers a callback invoked at every probe answered by the virtual clock
+    /// (before the answer is given).
+    pub fn set_probe_callback(f: Option<fn()>) {
+        ON_PROBE.with(|c| c.set(f));
     }
 
     /// Registers a callback invoked by the first probe that answers "exceeded"
@@ -85,6 +92,9 @@ pub mod verif_hooks {
             None => None,
             Some(fuel) => {
                 PROBES.with(|p| p.set(p.get() + 1));
+                if let Some(cb) = ON_PROBE.with(|c| c.get()) {
+                    cb();
+                }
                 if fuel == 0 {
                     if let Some(cb) = ON_EXPIRY.with(|c| c.take()) {
                         cb();
